@@ -70,6 +70,8 @@ def run(prop, tier):
         # (3): same histories + same loaded files in fresh processes with different heap contents
         runs = [("asan_fill_be", asan, {}), ("plain_perturb_00", plain, {"MALLOC_PERTURB_": "0"}), ("plain_perturb_55", plain, {"MALLOC_PERTURB_": "85"}), ("plain_perturb_aa", plain, {"MALLOC_PERTURB_": "170"})]
         outs = {}
+        sized = {}
+        nsz = 60 if q else 600
         for tag, exe, env in runs:
             if tag == "asan_fill_be":
                 outs[tag] = (out, None)
@@ -77,6 +79,9 @@ def run(prop, tier):
                 o1 = os.path.join(wd, "h_" + tag)
                 C.run_driver(exe, "hist", nh, o1, args=hargs, env_extra=env)
                 outs[tag] = (o1, None)
+            o3 = os.path.join(wd, "z_" + tag)
+            C.run_driver(exe, "sizedsave", nsz, o3, env_extra=env)
+            sized[tag] = o3
             o2 = os.path.join(wd, "f_" + tag)
             C.run_driver(exe, "loaddump", len(paths), o2, args=["--list", lst, "--resave", "1"], env_extra=env)
             outs[tag] = (outs[tag][0], o2)
@@ -100,6 +105,18 @@ def run(prop, tier):
                         viols.append(dict(prop="C14", key="cross_process/bytes_differ/%s/%s" % (kind, secname), detail="%s case %d: %s vs %s differ first at offset %d (%s), sizes %d/%d" % (kind, i, ref_tag, tag, off, sec, la, lb),
                                           case=i, files=[base, other], workload=R0.workload if kind == "history" else None))
                         break
+        for i in range(nsz):
+            base = os.path.join(sized[ref_tag], "sized_%d.c3d" % i)
+            if not os.path.exists(base):
+                continue
+            stats["objects_compared_across_processes:size_constructed"] += 1
+            for tag, exe, env in runs[1:]:
+                other = os.path.join(sized[tag], "sized_%d.c3d" % i)
+                if not os.path.exists(other) or not filecmp.cmp(base, other, shallow=False):
+                    off, la, lb = first_diff(base, other) if os.path.exists(other) else (-1, 0, 0)
+                    viols.append(dict(prop="C14", key="cross_process/bytes_differ/size_constructed/" + (section_of(base, off).split("(")[0] if off >= 0 else "missing"), detail="object %d built with size constructors (values never set): %s vs %s differ at offset %d" % (i, ref_tag, tag, off), case=i, files=[base]))
+                    break
+                stats["file_pairs_compared"] += 1
         # (3b) several objects saved one after the other in one process must give the same bytes as when saved alone
         win = 6
         oseq = os.path.join(wd, "saveseq")
@@ -163,7 +180,7 @@ def run(prop, tier):
                 viols.append(dict(prop="C14", key="memcheck/" + re.sub(r" of size \d+", "", e).strip().replace(" ", "_")[:40], detail="%s cases %d..%d" % (mode, a, b), case=a))
         cnt = R0.cnt
         cov = dict(evaluations=nh + len(paths) + stats["memcheck_cases"], distinct_nontrivial=len(R0.histsig) + len(set(json.dumps(m.get("shape"), sort_keys=True) for m in metas)),
-                   rule="objects = final states of seeded API histories and loaded corpus files (all with header events and short labels); each object is saved in 4 fresh processes (ASan fill 0xbe; glibc MALLOC_PERTURB_ 0x00/0x55/0xaa) and the files compared byte for byte; a sample is saved under valgrind memcheck with origin tracking (any uninitialised byte reaching write(2) is a violation); online: snapshot equality around every save and byte equality of two consecutive saves (the second destination pre-filled with longer junk); every loaded file is also saved after other objects in one process (two orders) and compared with its stand-alone save; distinct = distinct history signatures + distinct corpus shapes",
+                   rule="objects = final states of seeded API histories (35 % wild), objects assembled with the size constructors whose values are never set, and loaded corpus files (all with header events and short labels); each object is saved in 4 fresh processes (ASan fill 0xbe; glibc MALLOC_PERTURB_ 0x00/0x55/0xaa) and the files compared byte for byte; a sample is saved under valgrind memcheck with origin tracking (any uninitialised byte reaching write(2) is a violation); online: snapshot equality around every save and byte equality of two consecutive saves (the second destination pre-filled with longer junk); every loaded file is also saved after other objects in one process (two orders) and compared with its stand-alone save; distinct = distinct history signatures + distinct corpus shapes",
                    samples=R0.samples[:2] + [dict(file=os.path.basename(paths[0]), variants=metas[0]["variants"])],
                    saves_with_snapshot_equality_checked=cnt.get("c14_purity_checked", 0), double_saves_compared=cnt.get("c14_double_saves", 0),
                    processes_per_object=len(runs), **dict(stats))
